@@ -77,6 +77,7 @@ static size_t med_write(uint32_t addr, const void *src, size_t n) { return g_med
 
 struct Config {
     size_t N = 8; uint32_t place = 0; int ck = 0; uint32_t init = 0; int64_t aux = -1;
+    std::vector<int64_t> setup;   // configuration history before the effective calls: 1 sum16(crc), 2 sum32, 3 place(elsewhere), 4 buffer(other size), 5 place(final)
     size_t cks() const { return ck == 2 ? 4 : 2; }
     void load(const Json &j) {
         int64_t n = j.geti("size", 8); if (n < 1) n = 1; if (n > 4096) n = 4096; N = (size_t)n;
@@ -84,6 +85,8 @@ struct Config {
         ck = (int)(j.geti("ck") % 3); if (ck < 0) ck = 0;
         init = ck == 0 ? 0 : (uint32_t)j.geti("init");
         aux = j.geti("aux", -1); if (aux > (int64_t)N + 8) aux = (int64_t)N + 8;
+        setup.clear(); const Json &sj = j.get("setup");
+        for (size_t i = 0; i < sj.size() && i < 8; ++i) { int64_t st = sj.ati(i); if (ck == 0 && (st == 1 || st == 2)) continue; /* the default trivial sum cannot be re-selected */ setup.push_back(st); }
     }
     uint32_t ref(const uint8_t *d, size_t n) const {
         switch (ck) { case 0: return ref_trivial(d, n, (uint16_t)init); case 1: return ref_crc16arc(d, n, (uint16_t)init); default: return ref_sum32(d, n, init); }
@@ -93,13 +96,31 @@ struct Config {
 struct Store {
     PersistentStorage ps;
     std::unique_ptr<GuardedBlock> aux;
+    std::unique_ptr<GuardedBlock> aux_old;
     void make(const Config &cf) {
         persistent_init(&ps, cf.N, med_read, med_write);
         // ck == 0: the library's default trivial 16-bit sum (initial value 0) set up by persistent_init
-        persistent_place(&ps, cf.place);
+        // an arbitrary configuration history first (users re-configure instances): only the last call of each kind counts
+        bool placed_last = false, summed = false;
+        for (int64_t st : cf.setup) {
+            switch (st) {
+            case 1: persistent_sum16(&ps, cb_crc16, 0x1d0f); summed = true; break;
+            case 2: persistent_sum32(&ps, cb_sum32, 7u); summed = true; break;
+            case 3: persistent_place(&ps, cf.place + 1000u); placed_last = false; break;
+            case 4: aux_old.reset(new GuardedBlock(3)); persistent_buffer(&ps, aux_old->p, 3); break;
+            case 5: persistent_place(&ps, cf.place); placed_last = true; break;
+            default: break;
+            }
+        }
+        // the effective configuration; the order of place and checksum selection varies with the history
+        bool place_first = cf.setup.empty() || (cf.setup[0] & 1);
+        if (place_first && !placed_last) persistent_place(&ps, cf.place);
         if (cf.ck == 1) persistent_sum16(&ps, cb_crc16, (uint16_t)cf.init);
         else if (cf.ck == 2) persistent_sum32(&ps, cb_sum32, cf.init);
+        (void)summed;
+        if (!place_first && !placed_last) persistent_place(&ps, cf.place);
         if (cf.aux >= 0) { aux.reset(new GuardedBlock((size_t)cf.aux)); persistent_buffer(&ps, aux->p, (size_t)cf.aux); }
+        else if (aux_old) persistent_buffer(&ps, nullptr, 1);   // back to "no buffer" as after persistent_init
     }
 };
 
@@ -108,7 +129,7 @@ struct PsHarness : Harness {
     std::vector<std::string> props() const override { return {"C10", "C11"}; }
     std::string level(const std::string &p) const override { return p == "C11" ? "fault_enumeration" : "exploration"; }
     std::vector<std::string> probes(const std::string &p) const override {
-        if (p == "C10") return {"aux_size_0", "aux_size_1", "aux_size_N_minus_1", "aux_size_N", "aux_size_N_plus_1", "partial_store_ends_at_last_octet", "overflow_pair_refused"};
+        if (p == "C10") return {"aux_size_0", "aux_size_1", "aux_size_N_minus_1", "aux_size_N", "aux_size_N_plus_1", "partial_store_ends_at_last_octet", "overflow_pair_refused", "reconfigured_checksum_width", "placed_before_checksum_selection"};
         return {"crash_between_data_and_checksum_write", "tear_inside_checksum", "short_read_in_last_call", "validated_new_image_after_cut", "validated_old_image_after_cut"};
     }
     uint64_t runs(const std::string &p, const Tier &t) const override {
@@ -157,6 +178,7 @@ struct PsHarness : Harness {
         int64_t aux;
         switch (r.below(8)) { case 0: aux = -1; break; case 1: aux = 0; break; case 2: aux = 1; break; case 3: aux = N - 1; break; case 4: aux = N; break; case 5: aux = N + 1; break; default: aux = r.range(0, N + 1); }
         c["aux"] = (long long)aux;
+        { Json st = Json::arr(); int n = r.chance(1, 2) ? 0 : (int)r.range(1, 4); for (int i = 0; i < n; ++i) st.push((long long)r.range(1, 5)); c["setup"] = st; }
         return c;
     }
     Json gen_op(Rng &r, int64_t N, bool allow_special) {
@@ -237,7 +259,7 @@ struct PsHarness : Harness {
         PersistentAccess rc = PERSISTENT_ACCESS_SUCCESS;
         volatile bool ret = true;
         if (op == "store") { Bytes d = op_data(o, N); ret = WITH_BUDGET(c, W.budget(), rc = persistent_store(&W.st.ps, d.data())); }
-        else if (op == "store_part") { Bytes d = op_data(o, inrange ? slen : 1); GuardedBlock g(d.size()); memcpy(g.p, d.data(), d.size()); ret = WITH_BUDGET(c, W.budget(), rc = persistent_store_part(&W.st.ps, g.p, soff, slen)); }
+        else if (op == "store_part") { Bytes d = op_data(o, inrange ? slen : 1); GuardedBlock g(d.size()); if (!d.empty()) memcpy(g.p, d.data(), d.size()); ret = WITH_BUDGET(c, W.budget(), rc = persistent_store_part(&W.st.ps, g.p, soff, slen)); }
         else if (op == "fetch") { GuardedBlock g(N); ret = WITH_BUDGET(c, W.budget(), rc = persistent_fetch(g.p, &W.st.ps)); R.fetched.assign(g.p, g.p + N); }
         else if (op == "fetch_part") { GuardedBlock g(inrange && slen ? slen : 1); ret = WITH_BUDGET(c, W.budget(), rc = persistent_fetch_part(g.p, &W.st.ps, soff, slen)); R.fetched.assign(g.p, g.p + (inrange ? slen : 0)); if (!inrange && !g.unchanged_outside(0, 0)) c.fail("range.fetch_part", "refused fetch wrote to the destination"); }
         else if (op == "validate") { ret = WITH_BUDGET(c, W.budget(), rc = persistent_validate(&W.st.ps)); }
@@ -260,6 +282,7 @@ struct PsHarness : Harness {
         World W(c); W.setup(plan);
         const Config &cf = W.cf;
         Bytes pristine = W.med.mem;
+        { bool s16 = false, s32 = false; for (auto st : cf.setup) { if (st == 1) s16 = true; if (st == 2) s32 = true; } if ((s32 && cf.ck == 1) || (s16 && cf.ck == 2)) COUNT("probe.reconfigured_checksum_width"); if (cf.setup.empty() || (cf.setup[0] & 1)) COUNT("probe.placed_before_checksum_selection"); }
         if (cf.aux == 0) COUNT("probe.aux_size_0"); else if (cf.aux == 1) COUNT("probe.aux_size_1");
         else if (cf.aux == (int64_t)cf.N - 1) COUNT("probe.aux_size_N_minus_1"); else if (cf.aux == (int64_t)cf.N) COUNT("probe.aux_size_N"); else if (cf.aux == (int64_t)cf.N + 1) COUNT("probe.aux_size_N_plus_1");
         const Json &ops = plan.get("ops");
@@ -308,7 +331,7 @@ struct PsHarness : Harness {
                 }
                 if (R.rc != PERSISTENT_ACCESS_SUCCESS) { F("result", "returned %s on a fault-free medium", acc_name(R.rc)); return; }
                 Bytes d = op_data(o, part ? R.len : cf.N);
-                if (part) { memcpy(W.img.data() + R.off, d.data(), R.len); if (R.len && R.off + R.len == cf.N) COUNT("probe.partial_store_ends_at_last_octet"); }
+                if (part) { if (R.len) memcpy(W.img.data() + R.off, d.data(), R.len); if (R.len && R.off + R.len == cf.N) COUNT("probe.partial_store_ends_at_last_octet"); }
                 else W.img = d;
                 if (!bytes_eq(W.mdata(), W.img.data(), cf.N)) { F("image", "data on the medium differs from the stored image"); return; }
                 uint32_t want = cf.ref(W.img.data(), cf.N);
